@@ -89,4 +89,27 @@ let wc side f =
   if plain_sink then Printf.sprintf "%s %s" (show_res r) (show_bytes w'.w_received)
   else Printf.sprintf "%s %s %s" (show_res r) (show_bytes w'.w_received) (show_calls w'.w_calls)
 
-let () = register "wc" wc
+(* wchuge <fg|-> <bg|-> <log2> <extra>: 2^log2 + extra data bytes into an accept-all writer.  The framing and the
+   count are known from the model / specification run on ONE data byte (the codes hold no zero byte): what is written
+   before and after the data does not depend on the data, the count is the data length *)
+let wchuge side f =
+  let fg = colour_ix (List.nth f 0) and bg = colour_ix (List.nth f 1) in
+  let n = (1 lsl int_of_string (List.nth f 2)) + int_of_string (List.nth f 3) in
+  let w0 = { w_script = []; w_received = []; w_calls = [] } in
+  let w', r =
+    match side with
+    | `Model ->
+        let col o = match o with None -> None | Some i -> Some (List.nth all_ansi i) in
+        wa_write_colored (col fg) (col bg) [ n_of_int 0 ] w0
+    | `Spec ->
+        let ix o = match o with None -> None | Some i -> Some (n_of_int i) in
+        let w', r = sa_write_colored (ix fg) (ix bg) [ n_of_int 0 ] w0 in
+        ({ w' with w_received = sa_frame (ix fg) (ix bg) [ n_of_int 0 ] }, r)
+  in
+  let rec split acc = function [] -> (List.rev acc, []) | x :: t -> if int_of_n x = 0 then (List.rev acc, t) else split (x :: acc) t in
+  let pre, post = split [] w'.w_received in
+  match r with
+  | Inl k when int_of_n k = 1 -> Printf.sprintf "ok:%d %s|D%d|%s" n (show_bytes pre) n (show_bytes post)
+  | _ -> "UNEXPECTED " ^ show_res r
+
+let () = register "wc" wc; register "wchuge" wchuge
